@@ -128,6 +128,15 @@ type SplitSpec struct {
 	Lo, Hi int
 }
 
+// ConstGlobal: a package-level []byte variable that is initialised once and never reassigned (assumption):
+// "constglobal <name> len <n> content <expr>".
+type ConstGlobal struct {
+	PkgPath string
+	Name    string
+	Len     int
+	Content *Clause
+}
+
 // GhostUpdate: "set loc := expr" or "choose loc with pred" (assign-such-that; pred may mention the new value of loc).
 type GhostUpdate struct {
 	Choose bool
@@ -148,22 +157,23 @@ type GhostVar struct {
 }
 
 type ContractSet struct {
-	Funcs       map[string]*FuncContract // pkgpath + "." + key
-	Ifaces      map[string]*FuncContract // pkgpath.Iface.Method
-	Externs     map[string]*FuncContract // ssa fn.String()
-	Specs       map[string]*SpecFn
-	Lemmas      []*Lemma
-	Axioms      []*Axiom
-	Ghosts      map[string]*GhostVar
-	GhostFields map[string]*GhostField
-	Schemas     []*Schema
-	OpaquePats  []string
-	Errors      []string
+	Funcs        map[string]*FuncContract // pkgpath + "." + key
+	Ifaces       map[string]*FuncContract // pkgpath.Iface.Method
+	Externs      map[string]*FuncContract // ssa fn.String()
+	Specs        map[string]*SpecFn
+	Lemmas       []*Lemma
+	Axioms       []*Axiom
+	Ghosts       map[string]*GhostVar
+	GhostFields  map[string]*GhostField
+	ConstGlobals map[string]*ConstGlobal // "pkgpath.name"
+	Schemas      []*Schema
+	OpaquePats   []string
+	Errors       []string
 }
 
 func NewContractSet() *ContractSet {
 	return &ContractSet{Funcs: map[string]*FuncContract{}, Ifaces: map[string]*FuncContract{}, Externs: map[string]*FuncContract{},
-		Specs: map[string]*SpecFn{}, Ghosts: map[string]*GhostVar{}, GhostFields: map[string]*GhostField{}}
+		Specs: map[string]*SpecFn{}, Ghosts: map[string]*GhostVar{}, GhostFields: map[string]*GhostField{}, ConstGlobals: map[string]*ConstGlobal{}}
 }
 
 var implRe = regexp.MustCompile(`==>`)
@@ -223,7 +233,7 @@ var clauseKw = map[string]bool{"behavior": true, "ensuresassumed": true, "split"
 	"assert": true, "call": true}
 
 var blockKw = map[string]bool{"func": true, "spec": true, "lemma": true, "axiom": true, "ghost": true,
-	"interface": true, "extern": true, "opaquepat": true, "package": true, "schema": true}
+	"interface": true, "extern": true, "opaquepat": true, "package": true, "schema": true, "constglobal": true}
 
 func firstWord(s string) (string, string) {
 	s = strings.TrimSpace(s)
@@ -474,6 +484,18 @@ func (cs *ContractSet) ParseFile(path, pkgPath string) error {
 				if cl != nil {
 					cs.Axioms = append(cs.Axioms, &Axiom{PkgPath: pkgPath, Name: name, Params: params, Body: cl, Triggers: trig})
 				}
+			}
+		case "constglobal":
+			cur, curLemma = nil, nil
+			f := strings.Fields(it.rest)
+			k := strings.Index(it.rest, " content ")
+			if len(f) >= 5 && f[1] == "len" && k > 0 {
+				n, _ := strconv.Atoi(f[2])
+				if cl := mkClause(item{it.n, "", strings.TrimSpace(it.rest[k+9:])}, nil); cl != nil {
+					cs.ConstGlobals[pkgPath+"."+f[0]] = &ConstGlobal{PkgPath: pkgPath, Name: f[0], Len: n, Content: cl}
+				}
+			} else {
+				cs.Errors = append(cs.Errors, fmt.Sprintf("%s:%d: bad constglobal", path, it.n))
 			}
 		case "opaquepat":
 			cs.OpaquePats = append(cs.OpaquePats, strings.Fields(it.rest)...)
